@@ -9,7 +9,7 @@ CORPUS = ['C06']
 
 
 def check(ctx):
-    return S.standard_check(ctx, "C06", PLAN, MONITORS, THEOREMS, corpus_dirs=CORPUS)
+    return S.standard_check(ctx, "C06", PLAN, MONITORS, THEOREMS, corpus_dirs=CORPUS, e2e=1)
 
 
 def replay(ctx, path):
